@@ -1,6 +1,7 @@
 (* C03 -- lemmas: counting argument on signer sets. *)
 From Coq Require Import ZArith NArith List Bool Lia ZifyBool ZifyNat ZifyN.
-From MV Require Import C02.Model C02.Proofs C03.Model Gen.C03.
+From MV Require C02.Model.
+From MV Require Import C02.Proofs C03.Model C03.Float Gen.C03.
 Import ListNotations.
 Open Scope Z_scope.
 
@@ -74,10 +75,13 @@ Proof. intros N I. unfold len. pose proof (NoDup_incl_length N I). lia. Qed.
 
 Definition T (n k : Z) : Z := (n * k + 999) / 1000.
 
+Lemma thr_is_C02 n k : thr n k = C02.Model.thr_int n k.
+Proof. reflexivity. Qed.
+
 Lemma thr_T n k : 0 <= n < 2 ^ 54 -> 0 <= k <= 1000 -> thr n k = T n k.
 Proof.
-  intros Hn Hk. unfold thr, T. apply thr_int_nowrap; try lia.
-  unfold two64. change (2 ^ 64) with 18446744073709551616. change (2 ^ 54) with 18014398509481984 in Hn. nia.
+  intros Hn Hk. rewrite thr_is_C02. unfold T. apply thr_int_nowrap; try lia.
+  unfold C02.Model.two64. change (2 ^ 64) with 18446744073709551616. change (2 ^ 54) with 18014398509481984 in Hn. nia.
 Qed.
 
 Lemma T_le_n n k : 0 <= n -> 0 <= k <= 1000 -> T n k <= n.
